@@ -516,7 +516,9 @@ class Tifa(TifaCore, ast.NodeVisitor):
         comparators = [self.visit(compare) for compare in node.comparators]
 
         # Handle ops
-        for op, right in zip(node.ops, comparators):
+        # In a chain (a < b < c) every operator compares its two neighbours
+        operands = [left] + comparators
+        for op, left, right in zip(node.ops, operands, comparators):
             if isinstance(op, (ast.Eq, ast.NotEq, ast.Is, ast.IsNot)):
                 continue
             elif isinstance(op, (ast.Lt, ast.LtE, ast.GtE, ast.Gt)):
